@@ -21,6 +21,8 @@ package main
 //            Coq spec derives for the shell that RUNS the command (running_shell / runs_fish, op 1215); kind quote checks
 //            NewExecutor + QuoteEntry directly (quote_dialect_follows_running_shell, executor_runs_the_documented_shell)
 //   kind relaunch (c12relaunch.go): fzf --tmux through a stand-in tmux: argv and environment of the re-launched fzf
+//   what a line is to a placeholder (c12view.go): term and live cases with a view (--ansi, --with-nth, colour and other display
+//            options; lines carrying complete control sequences) are judged over item_text of the lines (Coq spec, op 1223)
 // Shell runs are batched (50 snippets per process).
 
 import (
@@ -82,6 +84,9 @@ type c12Case struct {
 	// kind relaunch (c12relaunch.go): fzf --tmux through a stand-in tmux; Args = the command line after argv[0]
 	Env   []string  `json:"env,omitempty"`   // environment entries NAME=value of the outer fzf
 	Funcs []c12Func `json:"funcs,omitempty"` // exported bash functions of the outer environment
+	// kinds live and term (c12view.go): how the finder looks at the lines (--ansi, --with-nth, colour and other display
+	// options); absent: none of these options, the items are the lines
+	View *c12View `json:"view,omitempty"`
 }
 
 type c12Func struct {
@@ -1115,7 +1120,7 @@ func c12Gen(r *RNG, n int) c12Case {
 }
 
 func runC12(c *Ctx) {
-	c.Rep.Rule = "templates built from shell-neutral literal text, live and escaped placeholders of every form and flag, incl. several placeholders over one range that differ only in their flags (f-placeholders: the file each one names holds its own values); item texts / queries over every ASCII byte 1..127, shell metacharacters, newlines, multi-byte runes, 0..5 selected items; the finder level (kind term: list, cursor position, selection order with 0, 1, 2.. selected items and the cursor on or off the selection, through buildPlusList; kind live: the fzf binary on a pty, random toggle / move / select-all sequences, then one command through execute-silent, execute, execute-multi, transform-header, preview, change-preview, reload or become, argv and temp files read back from the real shell); $SHELL and --with-shell chosen independently for every expansion (fish / POSIX / unset login shell x fish / POSIX / no --with-shell; path names whose directory or suffix merely looks like fish), the dialect judged being the one of the shell that runs the command; kind quote: QuoteEntry under such a pair on hostile strings; tmux argument and export re-quoting; kind relaunch: the fzf binary run as fzf --tmux through a stand-in tmux that runs the re-launch script with an empty environment, command lines with hostile option values (incl. empty ones) and environments with hostile values (further = signs, quotes, $, backticks, backslashes, newlines, empty; LS_COLORS-like; FZF_DEFAULT_*; names a shell cannot hold; exported bash functions), argv and environment read where the re-launched fzf stands; non-trivial = a quoted value containing a shell metacharacter whose expansion passed the Coq spec and was handed to dash and bash (or came back from the shell fzf started); distinct by JSON of the case"
+	c.Rep.Rule = "templates built from shell-neutral literal text, live and escaped placeholders of every form and flag, incl. several placeholders over one range that differ only in their flags (f-placeholders: the file each one names holds its own values); item texts / queries over every ASCII byte 1..127, shell metacharacters, newlines, multi-byte runes, 0..5 selected items; the finder level (kind term: list, cursor position, selection order with 0, 1, 2.. selected items and the cursor on or off the selection, through buildPlusList; kind live: the fzf binary on a pty, random toggle / move / select-all sequences, then one command through execute-silent, execute, execute-multi, transform-header, preview, change-preview, reload or become, argv and temp files read back from the real shell); $SHELL and --with-shell chosen independently for every expansion (fish / POSIX / unset login shell x fish / POSIX / no --with-shell; path names whose directory or suffix merely looks like fish), the dialect judged being the one of the shell that runs the command; kind quote: QuoteEntry under such a pair on hostile strings; tmux argument and export re-quoting; kind relaunch: the fzf binary run as fzf --tmux through a stand-in tmux that runs the re-launch script with an empty environment, command lines with hostile option values (incl. empty ones) and environments with hostile values (further = signs, quotes, $, backticks, backslashes, newlines, empty; LS_COLORS-like; FZF_DEFAULT_*; names a shell cannot hold; exported bash functions), argv and environment read where the re-launched fzf stands; the finder's view of a line (kinds term and live with --ansi, --with-nth, colours switched off by --no-color / --color=bw / $NO_COLOR or another theme, 0-3 further display options, lines with complete control sequences - SGR, 256 and 24-bit colours, erase-in-line, OSC 8 links, charset selection, SO / SI - in hidden and shown fields): placeholders stand for item_text of the line; non-trivial = a quoted value containing a shell metacharacter whose expansion passed the Coq spec and was handed to dash and bash (or came back from the shell fzf started); distinct by JSON of the case"
 	os.Setenv("TMPDIR", c.Work)
 	c12ShellDir = c.Work
 	st := &c12State{c: c, shells: []string{"/bin/sh", "bash"}, corrSeen: map[string]int{}, dialects: map[string]c12Dialect{}}
@@ -1153,6 +1158,11 @@ func runC12(c *Ctx) {
 	n := c.N(7500, 187500)
 	for i := 0; i < n; i++ {
 		st.check(c12Gen(c.Rng, i))
+	}
+	// how the finder looks at a line (--ansi, --with-nth, colours on or off) must not change what a placeholder stands for
+	nt := c.N(900, 22500)
+	for i := 0; i < nt; i++ {
+		st.check(c12GenTermView(c.Rng, i))
 	}
 	st.flush()
 	c.Rep.Extra["generated_cases_wall_s"] = time.Since(t0).Seconds()
@@ -1192,6 +1202,20 @@ func runC12(c *Ctx) {
 		c.Rep.Count("relaunch:no_fzf_binary")
 	}
 	c.Rep.Extra["relaunch_runs_wall_s"] = time.Since(t0).Seconds()
+	t0 = time.Now()
+	// the running finder started with --ansi / --with-nth / colour and other display options, lines with control sequences
+	nv := 320 * scale
+	if c.Thorough() {
+		nv = 2400 * scale
+	}
+	lv := make([]c12Case, nv)
+	for i := range lv {
+		lv[i] = c12GenLiveView(c.Rng, i)
+	}
+	if c.Fzf != "" {
+		st.runLiveBatch(lv)
+	}
+	c.Rep.Extra["live_view_sessions_wall_s"] = time.Since(t0).Seconds()
 	nb := func(a *[256]bool) int {
 		k := 0
 		for b := 1; b < 256; b++ {
